@@ -160,6 +160,9 @@ pub struct SCase {
     /// whatever does not come from the query comes from the service's configured values, and the
     /// configured values that ARE overridden are decoys. None = `CostModel::new` directly.
     pub svc: Option<(bool, bool, bool, bool)>,
+    /// build the termination model from a JSON configuration through the application's
+    /// `TerminationModelBuilder` (runtime limits must then be whole seconds)
+    pub term_via_builder: bool,
 }
 
 pub struct Built {
@@ -206,6 +209,18 @@ fn term_real(t: &Term) -> TerminationModel {
         Term::Size(l) => TerminationModel::SolutionSizeLimit { limit: *l },
         Term::Iters(l) => TerminationModel::IterationsLimit { limit: *l },
         Term::Combined(ms) => TerminationModel::Combined { models: ms.iter().map(term_real).collect() },
+    }
+}
+
+fn term_json(t: &Term) -> serde_json::Value {
+    match t {
+        Term::Runtime { limit_ns, freq, .. } => {
+            let secs = limit_ns / 1_000_000_000;
+            serde_json::json!({"type": "query_runtime", "limit": format!("{}:{:02}:{:02}", secs / 3600, (secs / 60) % 60, secs % 60), "frequency": freq})
+        }
+        Term::Size(l) => serde_json::json!({"type": "solution_size", "limit": l}),
+        Term::Iters(l) => serde_json::json!({"type": "iterations", "limit": l}),
+        Term::Combined(ms) => serde_json::json!({"type": "combined", "models": ms.iter().map(term_json).collect::<Vec<_>>()}),
     }
 }
 
@@ -496,7 +511,12 @@ pub fn build(c: &SCase) -> Result<Built, String> {
         access_model,
         cost_model: Arc::new(cost_model),
         frontier_model,
-        termination_model: Arc::new(term_real(&c.term)),
+        termination_model: Arc::new(if c.term_via_builder {
+            routee_compass::app::compass::config::termination_model_builder::TerminationModelBuilder::build(&term_json(&c.term), None)
+                .map_err(|e| format!("termination: {}", e))?
+        } else {
+            term_real(&c.term)
+        }),
     };
     let alg = match c.astar {
         None => SearchAlgorithm::Dijkstra,
@@ -1263,6 +1283,7 @@ pub fn gen_case(rng: &mut Rng, opts: &GenOpts) -> SCase {
         astar,
         query_wf,
         svc: if rng.chance(1, 2) { Some((rng.chance(1, 2), rng.chance(1, 2), rng.chance(1, 2), rng.chance(1, 3))) } else { None },
+        term_via_builder: false,
     }
 }
 
@@ -1299,6 +1320,9 @@ pub fn describe(c: &SCase) -> Vec<&'static str> {
     }
     if c.agg_mul {
         v.push("agg_mul");
+    }
+    if c.term_via_builder {
+        v.push("termination_model_builder");
     }
     if let Some((qw, qv, qa, _)) = c.svc {
         v.push("cost_model_service");
